@@ -119,6 +119,7 @@ def check(ctx):
     from mc import hashseeds
     units = js.plan_units(ctx.thorough)
     units += [("hist", k, f) for k in ("int", "str") for f in ("name", "column")]
+    units += [("hist", "int", f, "recycle") for f in ("name", "column")]
     agg = hashseeds.run(ctx, "props.c10", units)
     agg.notes["bound"] = "see joinspace.plan_units"
     agg.notes["exhaustive"] = True
